@@ -102,6 +102,22 @@ func largeCases(tier string) []largeCase {
 			}},
 		)
 	}
+	// every pointer of a long list a second time: a back-reference to every ordinal of the message
+	reps := []int{300, 5000, 70000}
+	if tier == "thorough" {
+		reps = []int{300, 2100, 5000, 70000, 270000, 530000}
+	}
+	for _, n := range reps {
+		n := n
+		l = append(l, largeCase{fmt.Sprintf("[]*Inner of %d distinct pointers, then all of them again (a reference to every ordinal)", n), func() interface{} {
+			s := make([]*zoo.Inner, n, 2*n)
+			for i := range s {
+				s[i] = &zoo.Inner{A: int32(i)}
+			}
+			s = append(s, s...)
+			return &zoo.SlPInner{L: s, End: 5}
+		}})
+	}
 	// many non-empty maps in one message (any per-map leak of a counter or table shows)
 	maps := []int{1000, 12000}
 	if tier == "thorough" {
@@ -172,6 +188,11 @@ func largeCases(tier string) []largeCase {
 			l = append(l, largeCase{fmt.Sprintf("Boundary: pad %d then int, long, double, date, string, binary, pointer, same pointer, 5000-char tail", pad), func() interface{} {
 				return &zoo.Boundary{Pad: strings.Repeat("p", pad), I: 0x12345678, L: 0x1122334455667788, F: 0.1,
 					T: time.UnixMilli(1600000000123), S: "héllo", B: []byte{1, 2, 3, 4, 5}, P: p, Q: p, Tail: strings.Repeat("t", 5000)}
+			}})
+			// the same with strings that END in a multi-byte character (pad, value and tail)
+			l = append(l, largeCase{fmt.Sprintf("Boundary: pad of %d chars ending in a 3-byte character, then the scalars with a string ending in a 2-byte character, tail ending in a 4-byte character", pad), func() interface{} {
+				return &zoo.Boundary{Pad: strings.Repeat("p", pad-1) + "中", I: -7, L: 3000000, F: 2.5,
+					T: time.UnixMilli(1600000000000), S: "Zoë", B: []byte{9}, P: p, Q: p, Tail: strings.Repeat("t", 4999) + "😀"}
 			}})
 		}
 	}
